@@ -32,6 +32,11 @@ T = {
          "For every word of seven themed alphabets (formatting/adoption, tables, select, prologue/head/frameset, foreign content, blocks/lists, text modes) and their union, up to the stated depth modulo state equivalence, in document mode and in fragment mode for 10 containers, the real parser is run with all six builder configurations and the canonical trees (read by direct traversal) must be equal; the etree root form must equal the html subtree of the full tree.",
          "no reference model: a defect shared by all builders is invisible here (C01 covers that); attribute order is compared as a mapping; letters containing '{' or ':' in names are not in the alphabets",
          "6/C04"),
+ "C11": ("model_checking",
+         "explicit-state BFS over markup-token words, key = (suspended parser state, digest of the complete final tree); every explored word is built with etree (full tree / root element / fragment) and dom (document / documentElement / fragment), namespacing on and off, and walked by the real walkers from each start node; oracle = lint filter + own well-formedness checker + tree rebuilt from the stream == direct traversal + etree stream == dom stream",
+         "Walkers are pure traversals, so coverage is counted in distinct complete trees: all trees reachable by words of eight themed alphabets up to the stated depth (document mode and one fragment container per theme) are walked 12 ways each. The rebuilt-tree oracle is independent of html5lib (direct traversal of minidom / ElementTree objects).",
+         "names containing '{' or ':' appear only in witness words; attribute order is compared as a mapping; the 14 void elements of the standard are required to be EmptyTag, html5lib's two legacy extras (command, event-source) are accepted either way",
+         "6/C11"),
  "C13": ("exploration",
          "bounded exhaustive enumeration of token streams: the filter's complete (previous, token, next) decision domain (all streams <=3 over 134 walker tokens) + all streams of length 4-5 over a reduced alphabet, real filter, oracle = independent predicate written from the standard's optional-tags section; parse-equivalence clause over generated conforming trees in C07's space",
          "The filter decides from a 3-token window, so enumerating every stream of length <=3 over an alphabet that contains every omissible element (with/without attributes), look-alike names, foreign elements, void elements, text, whitespace, comments and doctype visits every decision it can make; longer streams over a reduced alphabet would expose state added by a change. Each removed token is checked against ref/optional_tags.py.",
@@ -52,6 +57,11 @@ T = {
          "Every attribute set of up to 4 (thorough 6) keys drawn from a pool mixing None/string namespaces and equal local names is fed to the real filter in every insertion order, inside every context of neighbouring tokens; the oracle checks multiset equality, sortedness by (namespace or '', local) and permutation invariance. The filter has no state, so this is its whole decision domain up to the bound.",
          "attribute values beyond the two value assignments and names outside the pool are not distinguished; Python's sort is trusted",
          "6/C18"),
+ "C19": ("model_checking",
+         "same explicit-state exploration as C11; each of the 12 walker streams per word is pushed through the real to_sax() into a recording ContentHandler; oracle = SAX event grammar + tree rebuilt from the events == direct traversal minus comments/doctype",
+         "Every distinct tree reachable inside the bounds is converted to SAX events from every start node with both walkers; the event sequence is checked against the SAX nesting grammar and replayed into a tree that must equal the source tree (elements, namespaces, attributes as ((ns, local), value), text in order).",
+         "qnames of un-prefixed attributes are not compared (AttributesNSImpl has none); comments and doctype are omitted by design",
+         "6/C19"),
  "C20": ("exploration",
          "exhaustive enumeration of complete finite domains (every BMP code point x 4 positions, all names <=3 over a 46-character class-boundary set, all comments <=8 over {-,a,space}, pubids, x all 64 flag combinations) against the real InfosetFilter; oracle = expat + round trip + injectivity + reuse-equals-fresh",
          "The coercion works character by character (two character-class regexes), so visiting every BMP code point in first and non-first position is its complete domain; multi-character interaction (escape patterns, replace order, cache reuse) is covered by all short names over a set that sits on every class boundary. expat, an independent XML parser, decides legality.",
